@@ -121,7 +121,12 @@ func verifInlineNonTrailer(nodes []parser.Node) bool {
 					if _, ws := c.(parser.Whitespace); ws {
 						continue
 					}
-					if _, ok := c.(parser.WhitespaceTrailer); !ok {
+					// the node kinds that carry no trailing-space information on the pinned tree
+					// (listed explicitly: the class must not follow the implementation if it changes)
+					switch c.(type) {
+					case parser.ChildrenExpression, parser.CallTemplateExpression, parser.TemplElementExpression,
+						parser.HTMLComment, parser.GoComment, parser.IfExpression, parser.ForExpression,
+						parser.SwitchExpression, parser.RawElement, parser.ScriptElement, parser.DocType:
 						found = true
 					}
 				}
